@@ -24,7 +24,7 @@ contract(
     requires=[],
     ensures=[
         "result.pattern == Rx(pat)",
-        "result.flags == 16",  # re.DOTALL: '*' = any run of characters, line breaks included
+        "result.flags == 48",  # re.DOTALL | re.UNICODE: '*' = any run of characters, line breaks included
     ],
     modifies=["fresh"],  # pure up to allocation: the lru_cache in front of it is then the identity
     returns="Pattern",
@@ -43,7 +43,7 @@ contract(
 contract(
     f"{M}:match_with_wildcard",
     requires=[],
-    ensures=["result == (pattern is None or FullMatches(Rx(pattern), 16, name))"],
+    ensures=["result == (pattern is None or FullMatches(Rx(pattern), 48, name))"],
     modifies=["fresh"],
     properties=["C19"],
 )
